@@ -38,6 +38,7 @@ func init() {
 				loopOwnedFieldsRule(p, r)
 				pooledHelperRule(p, r, "")
 				scratchPremiseRule(p, r, "R-scratch")
+				requestDeadlineNotInherited(p, r)
 				// recycled entries of the args / cookie arrays are completely overwritten before they are kept
 				runSlotFill(p, r, "C28")
 				runSlotFill(p, r, "C29")
@@ -2882,4 +2883,139 @@ func wrapperNotRecycledAfterHandOff(p *Prog, r *Report) {
 		}
 	}
 	r.Floor("R10", "reports of StateHijacked", nrep, 2)
+}
+
+// C11.R-deadline: a read deadline armed for one request only (RequestConfig.ReadTimeout, returned by HeaderReceived
+// for that request) is part of that request's treatment. Every path of the serve loop from such an arming call to
+// the read of the next request's head passes another SetReadDeadline / SetDeadline on the connection (the server's
+// own timeout, the idle timeout, or the clearing of the deadline): otherwise the next request - for which the
+// callback may have asked for no timeout at all - is cut off by its predecessor's deadline. Decided by exploration
+// of the loop (boolean locals such as a 'deadline armed' flag are followed; the branch 'first request of the
+// connection' is not taken after a back edge, the request counter being a loop counter that starts at zero).
+func requestDeadlineNotInherited(p *Prog, r *Report) {
+	fn, _, header, why := findServeLoop(p)
+	if fn == nil {
+		r.Undecided("R-deadline", "serve loop", why)
+		return
+	}
+	var hr ssa.Instruction
+	for _, b := range fn.Blocks {
+		for _, in := range b.Instrs {
+			c, ok := in.(*ssa.Call)
+			if !ok || c.Call.StaticCallee() != nil || c.Call.IsInvoke() {
+				continue
+			}
+			if _, fv := loadedField(c.Call.Value); fv != nil && fv.Name() == "HeaderReceived" {
+				hr = in
+			}
+		}
+	}
+	if hr == nil {
+		r.Undecided("R-deadline", "serve loop: call of Server.HeaderReceived", "not found")
+		return
+	}
+	isReadDeadline := func(i ssa.Instruction) bool {
+		c, ok := i.(ssa.CallInstruction)
+		if !ok || !c.Common().IsInvoke() || !typeIsNetConn(c.Common().Value.Type()) {
+			return false
+		}
+		nm := c.Common().Method.Name()
+		return nm == "SetReadDeadline" || nm == "SetDeadline"
+	}
+	perReq := map[ssa.Instruction]bool{}
+	for _, b := range fn.Blocks {
+		for _, in := range b.Instrs {
+			if isReadDeadline(in) && inLoop(header, b) && dominatesInstr(hr, in) {
+				perReq[in] = true
+			}
+		}
+	}
+	r.Floor("R-deadline", "read deadlines armed from the per-request configuration", len(perReq), 1)
+	// the request counter: a header phi that starts at a constant and is only incremented
+	isFirstRequestTest := func(bo *ssa.BinOp) bool {
+		if bo.Op != token.EQL {
+			return false
+		}
+		k, ok := constInt(bo.Y)
+		if !ok {
+			return false
+		}
+		add, ok := bo.X.(*ssa.BinOp)
+		if !ok || add.Op != token.ADD {
+			return false
+		}
+		ph, ok := add.X.(*ssa.Phi)
+		step, ok2 := constInt(add.Y)
+		if !ok || !ok2 || step <= 0 || ph.Block() != header {
+			return false
+		}
+		for i, e := range ph.Edges {
+			if inLoop(header, header.Preds[i]) {
+				if e != ssa.Value(add) {
+					return false
+				}
+			} else if c0, isK := constInt(e); !isK || c0+step != k {
+				return false
+			}
+		}
+		return true
+	}
+	const (
+		bArmed uint64 = 1 << iota
+		bLooped
+		bDead
+	)
+	n, bad := 0, 0
+	var wit []string
+	var pos token.Pos
+	x := NewExplorer(p, fn, Hooks{
+		Instr: func(x *Explorer, st *State, in ssa.Instruction) {
+			if perReq[in] {
+				st.Set(bArmed)
+				return
+			}
+			if isReadDeadline(in) {
+				st.Clear(bArmed)
+				return
+			}
+			c, ok := in.(ssa.CallInstruction)
+			if !ok || c.Common().StaticCallee() == nil || !inLoop(header, in.Block()) {
+				return
+			}
+			f := c.Common().StaticCallee()
+			if recvTypeName(f) == "RequestHeader" && (f.Name() == "Read" || f.Name() == "readLoop") {
+				n++
+				if st.Has(bArmed) {
+					bad++
+					if wit == nil {
+						wit, pos = x.Path(st), in.Pos()
+					}
+				}
+			}
+		},
+		Branch: func(x *Explorer, st *State, cond ssa.Value, taken bool, from *ssa.BasicBlock) {
+			pol, v := stripNot(cond)
+			if bo, ok := v.(*ssa.BinOp); ok && taken == pol && st.Has(bLooped) && isFirstRequestTest(bo) {
+				st.Set(bDead)
+			}
+		},
+		Edge: func(x *Explorer, st *State, from, to *ssa.BasicBlock) {
+			if to == header && inLoop(header, from) {
+				st.Set(bLooped)
+			}
+		},
+		Prune: func(x *Explorer, st *State, b *ssa.BasicBlock) bool { return st.Has(bDead) },
+	})
+	x.Filter = func(key string) bool {
+		return strings.Contains(key, "Timeout") || strings.Contains(key, "HeaderReceived")
+	}
+	x.MaxStates = 2000000
+	x.Run(nil)
+	if x.Aborted || n == 0 {
+		r.Undecided("R-deadline", "serve loop: reads of the request head", "exploration gave no verdict")
+		return
+	}
+	r.Counts["R-deadline arrivals at the head read"] = n
+	r.Check("R-deadline", "serve loop: a read deadline armed for one request does not stay armed when the next request's head is read", bad == 0, p.Pos(pos),
+		fmt.Sprintf("%d of %d explored arrivals at the head read still carry the deadline the previous request's RequestConfig.ReadTimeout armed: no SetReadDeadline lies between - with no ReadTimeout/IdleTimeout configured the next request, whatever its own configuration, is cut off when its predecessor's deadline expires", bad, n), wit...)
 }
